@@ -733,6 +733,33 @@ func (se *SpecEnv) call(x *ast.CallExpr) (Val, error) {
 			return Val{T: "(unwrap.bool " + sel(c, v.T) + ")", S: SBool, Typ: tBool}, nil
 		}
 		return Val{T: "(unwrap.bool (" + string(v.S) + ".val " + v.T + "))", S: SBool, Typ: tBool}, nil
+	case "since":
+		// since(t): what time.Since(t) returns in this call (uninterpreted function of the stamp)
+		v, err := se.expr(x.Args[0])
+		if err != nil {
+			return Val{}, err
+		}
+		t := fc.timeSince(v)
+		se.notePattern(t)
+		return Val{T: t, S: SInt, Typ: tInt}, nil
+	case "aload":
+		// aload(v, T): the value of type T stored in an atomic.Value (what v.Load().(T) yields)
+		v, err := se.expr(x.Args[0])
+		if err != nil {
+			return Val{}, err
+		}
+		pkg := fc.prog.pkgByPath(se.pkgPath)
+		t, err := resolveType(pkg, x.Args[1])
+		if err != nil {
+			return Val{}, err
+		}
+		uf := "unwrap." + typeKey(t)
+		fc.vc.declareFun(uf, []string{"Int"}, fc.sortStr(t))
+		val := "(" + string(v.S) + ".val " + v.T + ")"
+		if v.S == SInt {
+			val = sel(fc.compAt(se.st, "F.sync.atomic.Value.val", arraySort("Int")), v.T)
+		}
+		return Val{T: "(" + uf + " " + val + ")", S: fc.vc.sortOf(t), Typ: t}, nil
 	case "ghostv":
 		// ghostv("name", ref): a named ghost counter/cell per object
 		bl, ok := x.Args[0].(*ast.BasicLit)
@@ -860,6 +887,9 @@ func (se *SpecEnv) call(x *ast.CallExpr) (Val, error) {
 			}
 		}
 		args = append(args, v)
+	}
+	if pf.Body == nil && pf.Heap {
+		return se.heapFunc(pf, args)
 	}
 	if pf.Body == nil {
 		fn := "uf." + smtIdent(pf.Name)
@@ -1171,7 +1201,7 @@ func (se *SpecEnv) heapFunc(pf *PureFunc, args []Val) (Val, error) {
 	// definitional axioms for this heap tuple, once: fuel-bounded unfolding (Dafny style) so that E-matching
 	// cannot loop along the parent chain
 	key := fn + "|" + strings.Join(compTerms, "|")
-	if pf.Opaque && !fc.topCon().Reveal[pf.Name] {
+	if pf.Body == nil || (pf.Opaque && !fc.topCon().Reveal[pf.Name]) {
 		// the definition stays hidden here: the symbol is an uninterpreted function of the components it reads
 		// (the reads clause is checked for completeness where the function is revealed)
 		return res, nil
